@@ -42,15 +42,15 @@ CHECKS = {
     "C03": dict(
         cat="proof",
         text="Each routine of the x86-64 baseline assembly, the x86-64 BMI2/ADX assembly (instruction stream produced by the assembler from the "
-             "current .s files), the AArch64 assembly (instruction stream of the .s files assembled for aarch64 by clang and read back with llvm-objdump), the portable 64-bit-word C++ and the portable 32-bit-word C++ (IR of the current tree) is symbolically executed "
+             "current .s files), the AArch64 assembly (instruction stream of the .s files assembled for aarch64 by clang and read back with llvm-objdump), the ARMv6-M Thumb-1 assembly (GNU-as sources macro-expanded by our reader, cross-checked instruction by instruction against clang's thumbv6m assembler), the portable 64-bit-word C++ and the portable 32-bit-word C++ (IR of the current tree) is symbolically executed "
              "and proved equal, for all operand values, to one shared integer specification per kernel (sum, carry/borrow, modular sum/difference/"
              "double, full 768-bit product and square, Montgomery reduction below p*2^384), with output aliasing the first operand or not; the "
              "CPUID dispatch table is shown to be all-baseline or all-BMI2. Bit-identity across back ends follows from equality with the same function. "
              "Counterexamples are replayed natively (both x86 variants are callable by symbol on this host; portable builds are rebuilt); AArch64 counterexamples "
              "are replayed in the interpreter's concrete mode only (no AArch64 hardware or emulator here).",
-        note="NOT covered: the ARMv6-M (Thumb-1) assembly sources unless obligations named t1:* appear in the evidence. "
-             "Trusted: x86-64 / AArch64 instruction semantics as implemented in engine/easm_x86.py and engine/easm_a64.py, the assembler/disassembler, Montgomery uniqueness, z3.",
-        tech="symbolic execution of the assembled x86-64 and AArch64 instruction streams and of LLVM IR over affine integer forms; QF_LIA / QF_BV VCs in z3; native replay",
+        note="AArch64 and ARMv6-M results cannot be replayed on hardware or an emulator here (interpreter-level replay only). "
+             "Trusted: x86-64 / AArch64 / ARMv6-M instruction semantics as implemented in engine/easm_x86.py, engine/easm_a64.py and engine/easm_t1.py, the assembler/disassembler, Montgomery uniqueness, z3.",
+        tech="symbolic execution of the x86-64, AArch64 and ARMv6-M instruction streams and of LLVM IR over affine integer forms; QF_LIA / QF_BV VCs in z3; native replay",
         ref="5/C03"),
     "C04": dict(
         cat="proof",
